@@ -239,7 +239,8 @@ def check_pair(vendor, old, new):
     except Exception as e:
         d_err = _exc(e)
     if f_err or d_err:
-        if f_err != d_err:
+        # both front ends refusing the input with the same exception type is the same behaviour (ill-formed input)
+        if (f_err or "").split(":")[0] != (d_err or "").split(":")[0]:
             which = "file-mode-raises" if f_err and not d_err else ("device-mode-raises" if d_err and not f_err else "different-exceptions")
             out.append(("bounded:C16:%s:%s:%s" % (which, vendor.replace(" ", "-"), (f_err or d_err).split(":")[0]),
                         "only one front end raises (or they raise differently)", dict(device_mode=d_err or "a patch"),
@@ -250,6 +251,18 @@ def check_pair(vendor, old, new):
         while n < min(len(f_cmds), len(d_cmds)) and f_cmds[n] == d_cmds[n]:
             n += 1
         first = f_cmds[n] if n < len(f_cmds) else d_cmds[n]
+        # the class is named after the first command that one patch has and the other has not (as multisets)
+        for (a, b) in ((d_cmds, f_cmds), (f_cmds, d_cmds)):
+            rest = list(b)
+            extra = []
+            for x in a:
+                if x in rest:
+                    rest.remove(x)
+                else:
+                    extra.append(x)
+            if extra:
+                first = extra[0]
+                break
         logic, raw_rule = logic_of(vendor, first)
         if sorted(f_cmds) == sorted(d_cmds):
             # one class per vendor: the order of the per-key buckets of make_pre depends on the unchanged rows
@@ -259,8 +272,8 @@ def check_pair(vendor, old, new):
                         dict(device_mode_cmd_paths=d_cmds), dict(file_mode_cmd_paths=f_cmds)))
         else:
             out.append(("bounded:C16:patch-differs:%s:%s" % (vendor.replace(" ", "-"), logic or leading(first[-1])),
-                        "file-mode patch != device-mode patch; first difference at command #%d %r (logic %s, rule %r)"
-                        % (n, first, logic, raw_rule), dict(device_mode_cmd_paths=d_cmds), dict(file_mode_cmd_paths=f_cmds)))
+                        "file-mode patch != device-mode patch; first difference at command #%d, first command only one side has: %r "
+                        "(logic %s, rule %r)" % (n, first, logic, raw_rule), dict(device_mode_cmd_paths=d_cmds), dict(file_mode_cmd_paths=f_cmds)))
     if f_diff != d_diff:
         out.append(("bounded:C16:diff-differs:%s" % vendor.replace(" ", "-"), "file-mode diff entries != device-mode diff entries",
                     d_diff, f_diff))
@@ -334,7 +347,7 @@ def cases(tier, seed, part, nparts):
             i += 1
             if i % nparts == part:
                 yield dict(kind="reverse", name=x[0], vendor=vendor, old=plain(x[3]), new=plain(x[2]))
-    nrand = 250 if tier == "quick" else 12000
+    nrand = 800 if tier == "quick" else 40000
     for vendor in by_vendor:
         for j in range(nrand):
             i += 1
@@ -380,8 +393,8 @@ def run(tier="quick", seed=0, part=0, nparts=1):
                      "children kept with p in {0.5,0.7,0.9} independently for old and new). Compared: cmd_paths of "
                      "_read_old_new_diff_patch vs _diff_and_patch (order-sensitive), their diff entries (op,row,children), and the "
                      "device diff against make_diff minus UNCHANGED. non-trivial = old != new and the device-mode patch is not empty; "
-                     "distinct by (vendor, old, new)" % (250 if tier == "quick" else 12000),
-                bound="shipped corpus, per-vendor cross products, %d random sub-tree pairs per vendor" % (250 if tier == "quick" else 12000))
+                     "distinct by (vendor, old, new)" % (800 if tier == "quick" else 40000),
+                bound="shipped corpus, per-vendor cross products, %d random sub-tree pairs per vendor" % (800 if tier == "quick" else 40000))
 
 
 def replay(case):
